@@ -209,6 +209,19 @@ class Runner:
             if cands:
                 cands[int(op[1]) % len(cands)].crash()
                 self.faults_applied += 1
+        elif kind == 'exit_running':
+            # unexpected / expected exit of the k-th child that is truly RUNNING somewhere
+            cands = [(x, n) for x in w.instances if x.alive for n, state in sorted(x.truth().items()) if state == 20]
+            if cands:
+                x, n = cands[int(op[1]) % len(cands)]
+                self._child_exit(x, n, int(op[2]))
+        elif kind == 'crash_host':
+            # crash the k-th instance, not Master, that hosts at least one RUNNING child
+            cands = [x for x in w.instances if x.alive and any(state == 20 for state in x.truth().values())
+                     and not (x.supvisors is not None and x.supvisors.state_modes.is_master())]
+            if cands and sum(1 for x in w.instances if x.alive) > 1:
+                cands[int(op[1]) % len(cands)].crash()
+                self.faults_applied += 1
         elif kind == 'crash_master':
             # crash the instance that most live instances hold as Master (only if it has company)
             votes = {}
@@ -331,6 +344,7 @@ class Runner:
         if child is not None:
             child.die_at = self.world.now
             child.status = (code & 0xff) << 8
+            self.world.obs('child_exit', inst.idx, namespec, code, proc.get_state())
 
     # --- main loop
     def step(self, record: dict) -> None:
@@ -684,6 +698,10 @@ def op_st(draw, config, kinds, specs):
         return [kind, i, draw(st.sampled_from([0, 0, 1, 3, 8, 20]))]
     if kind == 'crash_master':
         return [kind, draw(st.sampled_from([0, 0, 10, 30]))]
+    if kind == 'exit_running':
+        return [kind, draw(st.integers(0, 11)), draw(st.sampled_from([1, 1, 0]))]
+    if kind == 'crash_host':
+        return [kind, draw(st.integers(0, 7))]
     if kind == 'crash_target':
         return [kind, draw(st.integers(0, 7)), draw(st.sampled_from([0, 0, 1]))]
     if kind in ('cut', 'heal', 'mute'):
